@@ -13,6 +13,7 @@ use crate::trace::*;
 
 pub struct C10Checker {
     sep_pref_changed_since_set: bool,
+    chem_pref_changed_since_set: bool,
     checkpoints: u64,
 }
 
@@ -26,7 +27,7 @@ const SEP_PREFS: &[&str] = &["Language", "LanguageAuto", "DecimalSeparator", "De
 
 impl C10Checker {
     pub fn new(_t: &Trace, _s: usize) -> C10Checker {
-        C10Checker { sep_pref_changed_since_set: false, checkpoints: 0 }
+        C10Checker { sep_pref_changed_since_set: false, chem_pref_changed_since_set: false, checkpoints: 0 }
     }
 
     fn checkpoint(&mut self, s: &mut Sess, reset: bool, order: &[usize]) {
@@ -38,6 +39,7 @@ impl C10Checker {
             let r = s.call(&Op::SetMathml(ExprRef::Lit(src.clone())));
             if r.is_ok() {
                 self.sep_pref_changed_since_set = false;
+                self.chem_pref_changed_since_set = false;
             }
             Some(norm(&r))
         } else {
@@ -84,11 +86,14 @@ impl C10Checker {
             let same = if got.is_err() && exp.is_err() { true } else { got == exp };
             if !same {
                 let stale_sep = !reset && self.sep_pref_changed_since_set && has_separator_number(&src);
+                let stale_chem = !reset && self.chem_pref_changed_since_set;
                 let (sig, group) = if stale_sep {
                     (
                         "as-is output of a separator-bearing number after a Language/separator preference change since set_mathml".to_string(),
                         "stale separators".to_string(),
                     )
+                } else if stale_chem {
+                    ("as-is output after the Chemistry preference changed since set_mathml".to_string(), "stale chemistry marking".to_string())
                 } else {
                     (format!("{} ({}) differs from a fresh session with the same preferences", name, mode), format!("{} differs from a fresh session", name))
                 };
@@ -111,8 +116,15 @@ impl Checker for C10Checker {
     fn after_call(&mut self, _s: &mut Sess, op: &Op, res: &Res) {
         match op {
             Op::SetPref(n, _) if res.is_ok() && SEP_PREFS.contains(&n.as_str()) => self.sep_pref_changed_since_set = true,
-            Op::SetMathml(_) if res.is_ok() => self.sep_pref_changed_since_set = false,
-            Op::SetRulesDir(_) => self.sep_pref_changed_since_set = true,
+            Op::SetPref(n, _) if res.is_ok() && n == "Chemistry" => self.chem_pref_changed_since_set = true,
+            Op::SetMathml(_) if res.is_ok() => {
+                self.sep_pref_changed_since_set = false;
+                self.chem_pref_changed_since_set = false;
+            }
+            Op::SetRulesDir(_) => {
+                self.sep_pref_changed_since_set = true;
+                self.chem_pref_changed_since_set = true;
+            }
             _ => {}
         }
     }
